@@ -166,6 +166,53 @@ func runC18Case(cc c18Case, modelLine *string, modelWant *string) (string, strin
 		if err != nil || string(buf[:n]) != "again" {
 			return "future-deadline-disturbs", fmt.Sprintf("%s: %q %v", desc, buf[:n], err)
 		}
+	case "deadline-removed":
+		// a deadline in the near future that is removed (zero time) before it passes must never fire: neither on an idle
+		// direction nor on a call that is blocked when the old instant goes by
+		for _, sd := range []byte{'r', 'w', 'x'} {
+			set := func(t time.Time) {
+				switch sd {
+				case 'r':
+					nc.SetReadDeadline(t)
+				case 'w':
+					nc.SetWriteDeadline(t)
+				default:
+					nc.SetDeadline(t)
+				}
+			}
+			// idle
+			set(time.Now().Add(120 * time.Millisecond))
+			set(time.Time{})
+			time.Sleep(260 * time.Millisecond)
+			if _, err := nc.Write([]byte("w")); err != nil {
+				return "removed-deadline-fires", fmt.Sprintf("%s: side %c: a future deadline was removed before it passed; a Write after the old instant returned %v", desc, sd, err)
+			}
+			peer.writeFrame(RawFrame{Fin: true, Op: cc.MsgType, Payload: []byte("idle")})
+			buf := make([]byte, 8)
+			if n, err := nc.Read(buf); err != nil || string(buf[:n]) != "idle" {
+				return "removed-deadline-fires", fmt.Sprintf("%s: side %c: a future deadline was removed before it passed; a Read after the old instant returned %q, %v", desc, sd, buf[:n], err)
+			}
+			// a Read blocked while the old instant goes by
+			rdone := make(chan error, 1)
+			go func() {
+				b2 := make([]byte, 8)
+				_, err := nc.Read(b2)
+				rdone <- err
+			}()
+			time.Sleep(20 * time.Millisecond)
+			set(time.Now().Add(120 * time.Millisecond))
+			set(time.Time{})
+			time.Sleep(260 * time.Millisecond)
+			peer.writeFrame(RawFrame{Fin: true, Op: cc.MsgType, Payload: []byte("blocked")})
+			select {
+			case err := <-rdone:
+				if err != nil {
+					return "removed-deadline-fires", fmt.Sprintf("%s: side %c: a Read that was blocked when a removed deadline's instant passed failed: %v", desc, sd, err)
+				}
+			case <-time.After(3 * time.Second):
+				return "removed-deadline-fires", fmt.Sprintf("%s: side %c: the blocked Read did not return after the peer sent a message", desc, sd)
+			}
+		}
 	case "deadline-write-idle":
 		nc.SetWriteDeadline(time.Now().Add(-time.Second))
 		time.Sleep(30 * time.Millisecond)
@@ -548,6 +595,9 @@ func runC18(ctx *runCtx) {
 	}
 	for i := 0; i < n/3; i++ {
 		cases = append(cases, c18Case{Kind: "deadline-program", Client: rng.Intn(2) == 0, MsgType: 1 + rng.Intn(2), Prog: genDeadlineProg(rng), Seed: ctx.seed + int64(i)})
+	}
+	for _, client := range []bool{true, false} {
+		cases = append(cases, c18Case{Kind: "deadline-removed", Client: client, MsgType: 1, Seed: ctx.seed})
 	}
 	// a read deadline that expires idle between two Reads of one message (12-byte messages, 8-byte buffer), is seen
 	// by a Read, is reset, and reading continues: the stream goes on where it was
